@@ -61,8 +61,10 @@ LITS = [
     ["l", "2020-01-01", None, XSD + "date"],
     ["l", "<&>", None, None],
     ["l", "cr\rhere", None, None],
+    ["l", "a small graph here", None, None],
+    ["l", "WHERE { ?s ?p ?o } GRAPH", None, None],
 ]
-SUBS = [u("s1"), u("s2"), u("café")]
+SUBS = [u("s1"), u("s2"), u("café"), u("graph/7")]
 PREDS = [u("p"), u("q")]
 OBJS = [u("s1"), u("o")] + LITS
 
@@ -100,6 +102,7 @@ def generate(seed, tier):
         "format": g.choice(["xml", "json"]),
         "context_aware": g.chance(0.8),
         "init": [[g.pick(SUBS), g.pick(PREDS), g.pick(OBJS), g.choice([None, 0, 1])] for _ in range(g.randint(0, 6))],
+        "extra_params": g.chance(0.3),
         "faults": [],
     }
     nsteps = g.randint(4, 30 if tier == "quick" else 50)
@@ -322,7 +325,8 @@ def _execute(trace, ctx):
     ep = Endpoint(ctx, cfg.get("faults", []))
     kernel.refuse_network(ep)
     conn.urlopen = ep
-    store = SPARQLUpdateStore(QUERY_URL, UPDATE_URL, context_aware=cfg["context_aware"], autocommit=cfg["autocommit"], dirty_reads=cfg["dirty_reads"], method=cfg["method"], returnFormat=cfg["format"])
+    extra = {"params": {"client-tag": "sim"}, "headers": {"X-Sim": "1"}} if cfg.get("extra_params") else {}
+    store = SPARQLUpdateStore(QUERY_URL, UPDATE_URL, context_aware=cfg["context_aware"], autocommit=cfg["autocommit"], dirty_reads=cfg["dirty_reads"], method=cfg["method"], returnFormat=cfg["format"], **extra)
     faulty = bool(cfg.get("faults"))
 
     model = {}  # endpoint dataset model: gkey -> set of triple keys
